@@ -26,7 +26,9 @@ MANIFEST = dict(
          "whenever t + d succeeds, (t + d) - d = t exactly and (t + d) - t is d rounded to whole nanoseconds, within "
          "half a nanosecond of d (C19_add_sub); results never leave the supported range and an out-of-range result or "
          "an over-long duration is an error, never a wrapped instant (C19_range_ok, C19_range_err, C19_duration_err); "
-         "a zone conversion changes the zone only (C19_tz). All closed under the global context. NOT proved: jiff's "
+         "a zone conversion changes the zone only (C19_tz); on zoned values (instant, zone) arithmetic keeps the zone, "
+         "commutes with zone conversion, differences do not depend on the zones and the round trip restores instant and "
+         "zone (C19_tz_arith, C19_zoned_add_sub). All closed under the global context. NOT proved: jiff's "
          "calendar, time-zone database and strptime/strftime have no model — that adding a span of seconds and "
          "nanoseconds moves the instant by exactly that amount, that converting to a real IANA zone keeps the instant, "
          "and the parse-after-format round trip rest on the correspondence check and the oracle; f64 rounding of the "
@@ -38,7 +40,8 @@ MANIFEST = dict(
     technique="Coq proof over an executable integer model + model/implementation correspondence by vm_compute + metamorphic oracle",
 )
 
-THEOREMS = ["C19_add_sub", "C19_range_ok", "C19_range_err", "C19_duration_err", "C19_tz"]
+THEOREMS = ["C19_add_sub", "C19_range_ok", "C19_range_err", "C19_duration_err", "C19_tz", "C19_tz_arith",
+            "C19_zoned_add_sub"]
 
 TS_MIN_S = -377705023201
 TS_MAX_S = 253402207200
@@ -160,9 +163,14 @@ def run(chk):
     zlines = []
     for t, us, z in zone_cases:
         inst = "from_unixtime_µs(%d)" % (t * 10 ** 6 + us) if abs(t) < 8 * 10 ** 9 else instant_src(t)
+        dd = "(%s s)" % fl(rng.choice([-1, 1]) * (rng.randrange(1, 10 ** 7) + rng.randrange(1, 10 ** 6) / 1e6))
+        z2 = rng.choice(ZONES)
         zlines += ["%s -> tz(\"%s\")" % (inst, z),
                    "datetime(format_datetime(\"%%Y-%%m-%%d %%H:%%M:%%S%%.f %%z\", %s -> tz(\"%s\")))" % (inst, z),
-                   inst]
+                   inst,
+                   "(%s -> tz(\"%s\")) + %s" % (inst, z, dd),
+                   "(%s + %s) -> tz(\"%s\")" % (inst, dd, z),
+                   "(((%s -> tz(\"%s\")) + %s) - (%s -> tz(\"%s\"))) - ((%s + %s) - %s)" % (inst, z, dd, inst, z2, inst, dd, inst)]
     nflines = ["%s %s (%s s)" % (instant_src(0), op, v) for op in "+-" for v in ("sqrt(-1)", "(1e308 × 10)", "(-1e308 × 10)")]
     all_lines = lines + ulines + zlines + nflines
     outs = common.run_harness(binary, "eval", all_lines)
@@ -208,7 +216,12 @@ def run(chk):
             impl_strs.append((k or a, None, None))
             if k is None:
                 fail("error-kind", lines[3 * i], a, "t + d neither gives a date-time nor a range error")
-        items.append(("show_case (%d)%%Z %s" % (t * 10 ** 9, coq_q(Fraction(d))), "@"))
+        if d == 0:
+            items.append(("show_case (%d)%%Z %s" % (t * 10 ** 9, coq_q(Fraction(0))), "@"))
+        else:
+            mm, ee = math.frexp(abs(d))
+            items.append(("show_case_f64 (%d)%%Z %s %d%%positive (%d)%%Z" % (
+                t * 10 ** 9, "true" if d < 0 else "false", int(mm * 2 ** 53), ee - 53), "@"))
     model = common.coq_mismatches(["Time.Model", "Time.Exec"], items, "c19", shard_size=200,
                                   prelude="From Coq Require Import QArith ZArith.") if proved else {}
     mismatches = []
@@ -221,14 +234,12 @@ def run(chk):
                     mismatches.append({"source": lines[3 * i], "implementation": o_exact[3 * i], "model": ms})
                 continue
             mp = ms.split(";")
-            if len(mp) != 3 or not mp[0].startswith("D:"):
+            if len(mp) < 3 or not mp[0].startswith("D:"):
                 mismatches.append({"source": lines[3 * i], "implementation": o_exact[3 * i], "model": ms})
                 continue
-            dm = int(mp[0][2:]) - inst
-            if dm == 0 and s == mp[0] + ";" + mp[1] + ";":
-                continue
-            if abs(dm) <= 1 and mp[1] == "D:%d" % (t * 10 ** 9):
-                one_ns += 1          # fract*1e9 rounded in f64 vs exactly
+            if len(mp) > 3 and mp[3] not in ("0", "x"):
+                one_ns += 1          # the exact-rational model of the theorems differs by this many ns (f64 product fract*1e9)
+            if s == mp[0] + ";" + mp[1] + ";":
                 continue
             mismatches.append({"source": lines[3 * i], "implementation": ";".join(o_exact[3 * i:3 * i + 3]), "model": ms})
 
@@ -246,14 +257,20 @@ def run(chk):
             fail("diff", ulines[3 * i + 1], c, "(t + d) - t = %r s, d = %r s" % (qc[0], qd[0]))
     # (C) zones and parse/format
     for i, (t, us, z) in enumerate(zone_cases):
-        a, b, c = o_zone[3 * i:3 * i + 3]
+        a, b, c, e1, e2, e3 = o_zone[6 * i:6 * i + 6]
         da, db, dc = d_of(a), d_of(b), d_of(c)
         if dc is None:
             continue
         if da is None or da[0] != dc[0] or da[1] != z:
-            fail("tz", zlines[3 * i], a, "conversion to %s changed the instant %d or did not set the zone" % (z, dc[0]))
+            fail("tz", zlines[6 * i], a, "conversion to %s changed the instant %d or did not set the zone" % (z, dc[0]))
         if db is None or db[0] != dc[0]:
-            fail("parse-format", zlines[3 * i + 1], b, "parsing the full-precision display does not give the instant %d" % dc[0])
+            fail("parse-format", zlines[6 * i + 1], b, "parsing the full-precision display does not give the instant %d" % dc[0])
+        # C19_tz_arith on the implementation: zone kept by +, conversion commutes with +, differences ignore zones
+        d1, d2, q3 = d_of(e1), d_of(e2), q_of(e3)
+        if d1 is None or d2 is None or d1 != d2 or d1[1] != z:
+            fail("tz-arith", zlines[6 * i + 3], e1 + " vs " + e2, "(t -> tz) + d and (t + d) -> tz differ, or the zone %s was not kept" % z)
+        if q3 is None or q3[0] != 0.0:
+            fail("tz-diff", zlines[6 * i + 5], e3, "a difference of date-times depends on their zones")
     for ln, o in zip(nflines, o_nf):
         if not o.startswith("E:"):
             fail("non-finite", ln, o, "a non-finite duration must be rejected")
@@ -291,7 +308,8 @@ def run(chk):
                 "3 evaluations each; unit cases: durations in every time unit; zone cases: IANA zones x instants with microseconds "
                 "(conversion and parse-after-format); non-trivial = duration with a sub-second part, or a unit/zone case; distinct by input",
         "exhaustive": False,
-        "exact_model_cases": len(exact), "model_mismatches": len(mismatches), "one_ns_float_product_differences_tolerated": one_ns,
+        "exact_model_cases": len(exact), "model_mismatches": len(mismatches),
+        "cases_where_exact_rational_model_differs_by_1ns_from_f64_refinement": one_ns,
         "exact_case_outcomes": dict(outcome_hist),
         "unit_cases": len(unit_cases), "zone_cases": len(zone_cases), "oracle_failures": len(fails),
         "samples": [{"source": all_lines[i], "implementation": outs[i]} for i in (0, len(lines), len(lines) + len(ulines) + 1, len(all_lines) - 1)],
